@@ -10,6 +10,7 @@ import (
 	"sync/atomic"
 
 	eventbus "github.com/jilio/ebu"
+	"verif/busmodel"
 	"verif/vkit"
 )
 
@@ -40,6 +41,7 @@ type Step struct {
 type SeqCase struct {
 	Handlers []H    `json:"handlers"`
 	Steps    []Step `json:"steps"`
+	Ambient  int    `json:"ambient,omitempty"`
 }
 
 func accepts(f string, id int) bool {
@@ -150,7 +152,7 @@ func count(bus *eventbus.EventBus, t int) (int, bool) {
 // RunSeq: sequential history against the model.
 func RunSeq(c *SeqCase) *vkit.Outcome {
 	o := &vkit.Outcome{}
-	bus := eventbus.New()
+	bus := eventbus.New(busmodel.Ambient(c.Ambient)...)
 	cl := &calls{n: make([]int, len(c.Handlers)), ev: make([][]int, len(c.Handlers))}
 	type mreg struct {
 		h     int
@@ -244,6 +246,7 @@ type ConcCase struct {
 	Procs      int     `json:"procs"`
 	Rounds     int     `json:"rounds"`
 	Yield      []int   `json:"yield,omitempty"` // per publisher: Gosched calls before each publish
+	Ambient    int     `json:"ambient,omitempty"`
 }
 
 func RunConc(c *ConcCase) *vkit.Outcome {
@@ -272,7 +275,7 @@ func RunConc(c *ConcCase) *vkit.Outcome {
 		o.Class("two_or_more_concurrent_eligible_publishers")
 	}
 	for round := 0; round < c.Rounds; round++ {
-		bus := eventbus.New()
+		bus := eventbus.New(busmodel.Ambient(c.Ambient)...)
 		cl := &calls{n: make([]int, len(c.Handlers)), ev: make([][]int, len(c.Handlers))}
 		for hi, h := range c.Handlers {
 			if err := subscribe(bus, h, hi, cl); err != nil {
